@@ -201,6 +201,8 @@ func runC07Read(ctx *core.Ctx, r *core.Rng) {
 		sz = fmts.Medium
 	case x < 40:
 		sz = fmts.Multi
+	case x < 42 && ctx.Tier == "thorough":
+		sz = fmts.Large // offsets sampled, never enumerated
 	}
 	w, ref, ok := wellFormed(ctx, r, f, sz)
 	ctx.EvS("C07.read " + f.Name)
@@ -210,7 +212,29 @@ func runC07Read(ctx *core.Ctx, r *core.Rng) {
 	}
 	// Offsets: every one for tiny/small; for medium every one in thorough, stratified in quick.
 	var offs []int
-	if sz != fmts.Medium || (ctx.Tier == "thorough" && r.Chance(0.5)) {
+	if sz == fmts.Large {
+		mark := map[int]bool{0: true, len(w): true}
+		for _, b := range []int{4096, 8192, 65536, 131072} {
+			for d := -2; d <= 2; d++ {
+				if b+d >= 0 && b+d <= len(w) {
+					mark[b+d] = true
+				}
+			}
+		}
+		for i := 0; i < 120; i++ {
+			k := r.Intn(len(w) + 1)
+			mark[k] = true
+			if nl := bytes.IndexByte(w[k:], '\n'); nl >= 0 { // and the next line boundary
+				mark[k+nl] = true
+				mark[k+nl+1] = true
+			}
+		}
+		for k := range mark {
+			offs = append(offs, k)
+		}
+		sort.Ints(offs)
+		ctx.Stats.Inc("c07_inputs_large_offsets_sampled")
+	} else if sz != fmts.Medium || (ctx.Tier == "thorough" && r.Chance(0.5)) {
 		for k := 0; k <= len(w); k++ {
 			offs = append(offs, k)
 		}
@@ -256,7 +280,7 @@ func runC07Read(ctx *core.Ctx, r *core.Rng) {
 	for _, k := range offs {
 		pc := posClass(w, k)
 		for b := 0; b < 4; b++ {
-			fault := &sim.Fault{Offset: k, Forever: b&1 == 1, WithData: b&2 == 2}
+			fault := &sim.Fault{Offset: k, Forever: b&1 == 1, WithData: b&2 == 2, Kind: sim.FaultKinds[r.Intn(len(sim.FaultKinds))]}
 			if fault.WithData && k == 0 {
 				continue
 			}
@@ -269,6 +293,11 @@ func runC07Read(ctx *core.Ctx, r *core.Rng) {
 			v := checkFaulty("C07.read", f.Name, ref, out, st.FaultFired)
 			ctx.EvU(uint64(k), uint64(b), uint64(len(out.Items)), uint64(st.Reads))
 			if st.FaultFired {
+				kind := fault.Kind
+				if kind == "" {
+					kind = "plain"
+				}
+				ctx.Stats.Inc("fault_fired/read_error_value_" + kind)
 				ctx.Stats.Inc("fault_fired/read_" + []string{"once", "forever"}[b&1] + []string{"_alone", "_with_data"}[b>>1])
 				ctx.Stats.Inc("fault_pos/" + f.Name + "/" + pc)
 			} else {
@@ -304,8 +333,9 @@ func runC07Read(ctx *core.Ctx, r *core.Rng) {
 
 func runC07Write(ctx *core.Ctx, r *core.Rng) {
 	format := core.Pick(r, []string{"fasta", "fastq", "sam", "bed", "newick"})
-	rec := genRec(r, format)
-	ctx.EvS("C07.write " + rec.String())
+	rec := genRec(r, format, ctx.Tier == "thorough")
+	ctx.EvS("C07.write " + format)
+	ctx.EvU(uint64(rec.size()))
 	base := &Case{Clause: "C07.write", Rec: rec}
 	un := &sim.Sink{Plan: sim.SinkPlan{K: -1}}
 	var err error
@@ -325,7 +355,33 @@ func runC07Write(ctx *core.Ctx, r *core.Rng) {
 	ctx.Seen(core.HashBytes(full) ^ core.HashString(format+"/write"))
 	ctx.Stats.Inc("c07_write_records/" + format)
 	ctx.Stats.Add("c07_write_calls_per_record_total/"+format, int64(un.Calls))
-	for k := 0; k < len(full); k++ {
+	// every offset; for outputs beyond 12 KiB a stratified sample (all offsets near
+	// 4 KiB multiples, the first and last 300, 600 random ones)
+	offs := make([]int, 0, len(full))
+	if len(full) <= 12000 {
+		for k := 0; k < len(full); k++ {
+			offs = append(offs, k)
+		}
+	} else {
+		mark := map[int]bool{}
+		for k := 0; k < len(full); k++ {
+			if k < 300 || k >= len(full)-300 || k%4096 <= 2 || k%4096 >= 4094 {
+				mark[k] = true
+			}
+		}
+		for i := 0; i < 600; i++ {
+			mark[r.Intn(len(full))] = true
+		}
+		for k := range mark {
+			offs = append(offs, k)
+		}
+		sort.Ints(offs)
+		ctx.Stats.Inc("c07_write_records_offsets_sampled")
+	}
+	if len(full) > 4096 {
+		ctx.Stats.Inc("probe/write_output_beyond_4KiB/" + format)
+	}
+	for _, k := range offs {
 		for b := 0; b < 4; b++ {
 			sp := &sim.SinkPlan{K: k, Sticky: b&1 == 1, Partial: b&2 == 2}
 			c := &Case{Clause: "C07.write", Rec: rec, Sink: sp}
@@ -339,9 +395,9 @@ func runC07Write(ctx *core.Ctx, r *core.Rng) {
 		}
 	}
 	ctx.EvU(uint64(len(full)))
-	ctx.Stats.Add("c07_write_offsets_enumerated", int64(len(full)))
+	ctx.Stats.Add("c07_write_offsets_enumerated", int64(len(offs)))
 	if ctx.Run() < 64 {
-		ctx.Sample(map[string]any{"clause": "C07.write", "record": rec.String(), "output_bytes": len(full),
+		ctx.Sample(map[string]any{"clause": "C07.write", "record": string(trunc([]byte(rec.String()), 300)), "output_bytes": len(full),
 			"offsets": fmt.Sprintf("0..%d x {sticky,transient} x {partial,nothing}", len(full)-1)})
 	}
 }
